@@ -29,7 +29,10 @@ Fixpoint sumZ (l : list Z) : Z := match l with [] => 0 | x :: t => x + sumZ t en
 (* --------------------------------------------- jpeg_gen_optimal_table model *)
 Definition SENT : Z := 1000000000.   (* v = v2 = 1000000000L                *)
 Definition DEAD : Z := 1000000001.   (* freq[c2] = 1000000001L              *)
-Definition MAX_CLEN : nat := 32.
+Definition MAX_CLEN : nat := 64.     (* #define MAX_CLEN  64                     *)
+Definition LIMIT_LEN : nat := 16.    (* "for (i = MAX_CLEN; i > 16; i--)"        *)
+Definition PSEUDO_SYM : nat := 256.  (* "freq[256] = 1": index ...               *)
+Definition PSEUDO_COUNT : Z := 1.    (* ... and count of the pseudo symbol       *)
 
 Inductive gen_err := ClenOverflow | OutOfFuel | IndexUnderflow.
 
@@ -121,11 +124,12 @@ Fixpoint limit_while (fuel : nat) (bits : list Z) (i : nat) : option (option (li
     end
   else Some (Some bits).
 
-(* "for (i = MAX_CLEN; i > 16; i--)" : k counts the remaining iterations, i = 16 + k *)
+(* "for (i = MAX_CLEN; i > 16; i--)" : k counts the remaining iterations, i = 16 + k;
+   called with k = MAX_CLEN - LIMIT_LEN *)
 Fixpoint limit_for (k : nat) (bits : list Z) : option (option (list Z)) :=
   match k with
   | O => Some (Some bits)
-  | S k' => match limit_while 300 bits (16 + k) with
+  | S k' => match limit_while 300 bits (LIMIT_LEN + k) with
             | Some (Some b) => limit_for k' b
             | r => r
             end
@@ -133,7 +137,7 @@ Fixpoint limit_for (k : nat) (bits : list Z) : option (option (list Z)) :=
 
 (* "while (bits[i] == 0) i--; bits[i]--;" starting at i = 16 *)
 Definition remove_pseudo (bits : list Z) : option (list Z) :=
-  match find_j bits 16 with
+  match find_j bits LIMIT_LEN with
   | None => None
   | Some i => Some (upd i (wrap8 (nthZ bits i - 1)) bits)
   end.
@@ -155,7 +159,7 @@ Fixpoint nz_scan (fs : list Z) (i : Z) : list (Z * Z) :=
 Record hufftbl := { h_bits : list Z (* 17 entries, [0] unused *); h_vals : list Z }.
 
 Definition gen_codesizes (freq256 : list Z) : gen_err + (list Z * list Z) :=
-  let nzs := nz_scan (firstn 256 freq256 ++ [1]) 0 in
+  let nzs := nz_scan (firstn PSEUDO_SYM freq256 ++ [PSEUDO_COUNT]) 0 in
   let n := length nzs in
   let st0 := {| freq := map snd nzs; chains := init_chains n 0 |} in
   match merge_loop n st0 with
@@ -167,10 +171,10 @@ Definition gen_optimal_table (freq256 : list Z) : gen_err + hufftbl :=
   match gen_codesizes freq256 with
   | inl e => inl e
   | inr (nz, cs) =>
-      match count_bits cs (repeat 0 33) with
+      match count_bits cs (repeat 0 (S MAX_CLEN)) with
       | None => inl ClenOverflow
       | Some bits0 =>
-          match limit_for 16 bits0 with
+          match limit_for (MAX_CLEN - LIMIT_LEN) bits0 with
           | None => inl IndexUnderflow
           | Some None => inl OutOfFuel
           | Some (Some bits1) =>
